@@ -458,6 +458,8 @@ class C14(Spec):
                 bad.append(("bad-observation", "empty line", i)); continue
             if o[0] == "bad-op":
                 bad.append(("bad-observation", impl_out[i][:80], i)); continue
+            if o[0] == "no-object":       # the op names an object whose constructor threw
+                continue
             if op == "new":
                 sid, kind, nh, nb, seed = int(w[1]), w[2], int(w[3]), int(w[4]), int(w[5])
                 must_throw = nb < 3 or nh * nb >= MAX_CELLS
